@@ -155,8 +155,12 @@ func (c *Ctx) Finish(explanation string) int {
 	var viol, knownHit []Obligation
 	discharged := 0
 	rules := map[string]int{}
+	ruleTitles := map[string]string{}
 	for _, o := range c.Obls {
 		rules[ruleID(o.Rule)]++
+		if t := strings.TrimSuffix(o.Rule, " [GOOS=windows]"); len(t) > len(ruleTitles[ruleID(o.Rule)]) && !strings.Contains(t, "[GOOS=") {
+			ruleTitles[ruleID(o.Rule)] = t
+		}
 		st := "ok  "
 		if !o.OK {
 			if _, isKnown := known[o.Key]; isKnown {
@@ -195,6 +199,7 @@ func (c *Ctx) Finish(explanation string) int {
 		"discharged":    discharged + len(knownHit),
 		"known_finding": len(knownHit),
 		"rules":         rules,
+		"rule_titles":   ruleTitles,
 		"samples":       samples,
 		"checker_cmd":   "gsv check " + c.Prop + " --tier " + c.Tier,
 		"trusted_base":  []string{"go/types (go1.26.8)", "golang.org/x/tools v0.50.0 go/packages, go/cfg, go/ssa", "gsv rule tables and frozen exceptions (see DESIGN.md)"},
